@@ -50,6 +50,10 @@ META = {
              '(model: an ordinary update) or rolled back (model: nothing) while the plain connection\'s instance stays held; in 30% of '
              'the cases a second versioned class declared with Versioning(extraCols=<columns named like master columns of the '
              'class under test>) is created, updated and restored in between; '
+             'in 30% of the cases column c2 has a custom converting validator2 (Decimal amount <-> integer cents) that the '
+             'version class must inherit; the clock that stamps dateArchived (sqlobject.versioning.datetime, replaced by the '
+             'harness) runs forwards / stands still / runs backwards (20% each of the last two); 30% of the restores are '
+             'preceded by an out-of-band raw UPDATE of the master row, so the restoring side\'s cached values are stale; '
              'primary keys: AUTOINCREMENT ints (65%), explicit string keys that are mostly numeric look-alikes '
              "('7', '07', '7.0', '7e0', '', ' 7' ...; 25%) or explicit ints incl. 0, negatives and > 2^31 (10%), the same keys in "
              'every database of a case; masters are constructor-made and held; '
